@@ -233,6 +233,8 @@ def corpus(rep, tier, st):
     from sym6502 import AsmError, Unsupported as U2
     progs = [p for p in families.g_peep('quick') if p.pid.startswith(('peep/1/', 'peep/f/')) or families.stable_pick(p.pid, 100, 5 if tier == 'quick' else 50)]
     progs += [p for p in families2.all_core('quick') if families.stable_pick(p.pid, 100, 8 if tier == 'quick' else 100)]
+    import families3
+    progs += [p for p in families3.g_deep('quick') if families.stable_pick(p.pid, 100, 25 if tier == 'quick' else 100)]
     import check_c14, check_c03
     progs += check_c14.extra_programs()
     progs += g_modes()
